@@ -55,8 +55,9 @@ Proof.
     destruct r as [|p r']; [congruence|]. inversion Fr as [|? ? Hp _]; subst.
     unfold D3.dep_string in E. cbn [map] in E. revert E. apply joinw_head_nonempty.
     unfold D3.relation_string. cbn [map]. apply joinw_head_nonempty. now apply possi_string_nonempty.
-  - intros (n&En) E. exfalso. unfold A1.parse_arch_opt in En. destruct (A1.arch_ok n) eqn:O; [|discriminate]. inversion En; subst.
-    apply (A1.arch_ok_not_zero n O). now apply D7.arch_string_nonempty.
+  - intros (n&En) E. exfalso. unfold A1.parse_arch_opt in En. cbv zeta in En. destruct (existsb A1.is_ws4 (A1.trim4 n)); [discriminate|].
+    unfold A1.parse_arch_core in En. destruct (A1.arch_ok (A1.trim4 n)) eqn:O; [|discriminate]. inversion En; subst.
+    apply (A1.arch_ok_not_zero (A1.trim4 n) O). now apply D7.arch_string_nonempty.
 Qed.
 
 (* C09 for the library's custom types: scalars, string lists and version / dependency / architecture fields *)
